@@ -23,14 +23,15 @@ WRAP == 1000000     \* stands for a wrapped-around uint64 (2^64 - k)
 TimeOf(p, h) ==
   CASE p = "regular1" -> h               \* one tick per block
     [] p = "regular2" -> 2 * h           \* two ticks per block
+    [] p = "slow3"    -> 3 * h           \* three ticks per block
     [] p = "halted"   -> IF h <= 3 THEN h ELSE h + 40       \* long gap after height 3
     [] p = "burst"    -> IF h <= 4 THEN 3 * h ELSE 12 + (h - 4)   \* slow, then one tick per block
     [] OTHER          -> h
-Patterns == {"regular1", "regular2", "halted", "burst"}
+Patterns == {"regular1", "regular2", "slow3", "halted", "burst"}
 
 Inputs ==
   {[bt |-> bt, w |-> w, tp |-> tp, sfh |-> sfh, pat |-> p, tail |-> t, shead |-> sh, nhead |-> nh] :
-      bt \in 0..3, w \in {0, 2, 5, 12}, tp \in {3, 12}, sfh \in {0, 2, 6}, p \in Patterns,
+      bt \in 0..3, w \in {0, 2, 5, 9, 12}, tp \in {3, 12}, sfh \in {0, 2, 6}, p \in Patterns,
       t \in {0, 1, 3}, sh \in {0, 4, 7}, nh \in {3, 4, 5, 6, 8, MaxH}}
 Valid(i) ==
   /\ (i.tail = 0 <=> i.shead = 0)                   \* empty store or tail..shead
@@ -63,7 +64,9 @@ Find(i) ==
        THEN LET n == i.w \div i.bt IN
             IF n >= i.nhead THEN Res("ok", i.tail)      \* estimate would fall below genesis: nothing to prune
             ELSE Res("ok", Refine(i, i.nhead - n, expected))
-       ELSE Res("ok", Refine(i, i.tail + diff \div i.bt, expected))
+       ELSE LET est == i.tail + diff \div i.bt IN
+            IF est > i.nhead THEN Res("ok", i.tail)        \* slower blocks than blockTime: the estimate overshoots the chain
+            ELSE Res("ok", Refine(i, est, expected))
 
 \* tailHeight + renewTail + moveTail: the final outcome
 Predicted(i) ==
@@ -95,5 +98,6 @@ KFOverprune(i, r) == "KF-C16-overprune" \in Known /\ r.kind = "ok" /\ Faster(i)
 KFTailAboveHead(i, r) == "KF-C16-tail-above-head" \in Known /\ r.kind = "error" /\ i.tail # 0 /\ i.nhead > i.shead + 1
 PredictedAllowed == phase = "out" => Allowed(in, out) \/ KFOverprune(in, out) \/ KFTailAboveHead(in, out)
 Export == phase = "out" => PrintT(ToJson([k |-> "C16", in |-> in, predicted |-> out, allowed |-> Allowed(in, out),
+                                          kf |-> (KFOverprune(in, out) \/ KFTailAboveHead(in, out)),
                                           spaced |-> Spaced(in), times |-> [h \in 1..MaxH |-> TimeOf(in.pat, h)]]))
 =============================================================================
